@@ -266,8 +266,8 @@ def make_games(ctx, harness, driver, n_games, n_bound_prefix):
     r = ctx.rng
     gl, styles = [], []
     for _ in range(n_games):
-        st = r.choice([0, 0, 1, 1, 1, 2, 2, 3, 3, 3, 6, 7, 8, 8, 8, 9, 10])     # bit 0 promotion-, bit 1 castling/e.p.-seeking, bit 2 stop at an e.p. right, bit 3 pawn-capture seeking
-        plies = r.randrange(1, 151) if not (st & 8) or r.random() < 0.3 else r.randrange(4, 31)   # pawn-structure games mostly short: the pawn rules bite while many pawns are near home
+        st = r.choice([0, 0, 1, 1, 1, 2, 2, 3, 3, 3, 6, 7, 8, 8, 9, 10, 16, 16, 32, 32])     # bit 0 promotion-, bit 1 castling/e.p.-seeking, bit 2 stop at an e.p. right, bit 3 pawn-capture seeking, bit 4 / 5 one-sided pawn relays (white / black captures with pawns and keeps all its pawns)
+        plies = r.randrange(1, 151) if not (st & 56) or r.random() < 0.3 else r.randrange(4, 31)   # pawn-structure games mostly short: the pawn rules bite while many pawns are near home
         gl.append(f"pg gengame {r.getrandbits(48)} {plies} {MIN_MEN} {st}"); styles.append(st)
     out = run_chunks(harness, gl, JOBS, chunk=50)
     games, scan = [], []
@@ -288,7 +288,7 @@ def make_games(ctx, harness, driver, n_games, n_bound_prefix):
         g.want = [sorted(ks)[0]] if ks else []
         for _ in range(n_bound_prefix): ks.add(r.randrange(0, n + 1))
         ks.add(0)
-        if n <= 30 and (g.style & 8):       # short pawn-structure games: every prefix against its own continuation (the property's quantifier)
+        if n <= 30 and (g.style & 56):       # short pawn-structure games: every prefix against its own continuation (the property's quantifier)
             ks.update(range(0, n + 1))
         if o.startswith("ok "):
             st = dict(x.split("=") for x in o.split(" | ")[-1].split())
